@@ -7,7 +7,7 @@ DEFAULT_WEIGHTS = {
     "put_new": 10, "put_same": 3, "put_reser": 2, "put_change": 6, "put_revert": 3, "put_invalid": 3,
     "put_cond": 3, "put_uidconflict": 2, "put_uidchange": 2, "post": 2, "delete": 5, "delete_missing": 1, "delete_cond_stale": 1,
     "mkcol_new": 1, "mkcol_existing": 1, "delete_col": 0.4, "proppatch": 2, "read": 4, "restart": 0.5,
-    "put_missing_col": 0.5, "put_nouid": 0.5, "put_moved": 0, "put_swap": 0,
+    "put_missing_col": 0.5, "put_nouid": 0.5, "put_moved": 0, "put_swap": 0, "put_reserved": 0.7,
 }
 
 # names for C01-class histories: URL-hostile but not URL-structural
@@ -283,6 +283,22 @@ class Driver:
         ba, bb = col.members[a].served, col.members[b].served
         self.w.put(col.path, a, bb, op="put_swap", uid=col.members[b].uid, token=None)
         self.w.put(col.path, b, ba, op="put_swap", uid=col.members[a].uid, token=None)
+        return [col.path]
+
+    def op_put_reserved(self):
+        """a member name that collides with the store's own files"""
+        col = self.pick_col()
+        if col is None:
+            return None
+        name = self.rng.choice([".xandikos", ".xandikos", ".git", ".gitignore", ".xandikos.tmp"])
+        body = self.rng.choice([b"[DEFAULT]\ntype = addressbook\ndisplayname = hijacked\n", b"[DEFAULT]\ntype = calendar\n", b"just text " + self.w.new_token().encode(), b""])
+        ct = self.rng.choice(["text/plain", "application/octet-stream", "text/calendar"])
+        w = self.w
+        s, r = w.call("put_reserved:" + name, "PUT", w.url(col.path, name), [("Content-Type", ct)], body)
+        if W.World.success(s.eff):
+            # self-consistency: what was acknowledged must be readable and listed like any other member
+            w._apply_put(col, name, W.ctype_for(name), body, None, None, r.header("ETag"))
+        w.notify(s, r)
         return [col.path]
 
     def op_put_nouid(self):
